@@ -81,10 +81,14 @@ type RecStream[T any] struct {
 	EndGap    time.Duration
 	BlockAt   int
 	IgnoreCtx bool // do not look at ctx when it is already done (still honours it while waiting)
+	// CloseDelay makes Close take that long (fake time, bubble only): the stream only counts as closed
+	// once Close has returned, so "closed by the time X returns" is observable.
+	CloseDelay time.Duration
 
 	mu        sync.Mutex
 	pos       int
 	closed    bool
+	closing   bool
 	inCall    int32
 	Nexts     int
 	Closes    int
@@ -122,7 +126,7 @@ func (s *RecStream[T]) Next(ctx context.Context) (T, error) {
 	s.mu.Lock()
 	s.Nexts++
 	s.Log = append(s.Log, Event{Seq: Tick(), What: "next", Pos: s.pos})
-	if s.closed {
+	if s.closed || s.closing {
 		s.problem("Next called after Close")
 	}
 	pos := s.pos
@@ -217,12 +221,18 @@ func (s *RecStream[T]) Close() {
 	s.enter("Close")
 	defer s.leave()
 	s.mu.Lock()
-	defer s.mu.Unlock()
-	s.Closes++
 	s.Log = append(s.Log, Event{Seq: Tick(), What: "close", Pos: s.pos})
-	if s.closed {
+	if s.closed || s.closing {
 		s.problem("Close called a second time")
 	}
+	s.closing = true
+	s.mu.Unlock()
+	if s.CloseDelay > 0 {
+		time.Sleep(s.CloseDelay)
+	}
+	s.mu.Lock()
+	defer s.mu.Unlock()
+	s.Closes++
 	s.closed = true
 }
 
